@@ -193,8 +193,9 @@ def _get_aliases(result_types: dict, package_name: str) -> dict[str, set[str]]:
                     fullname = key.fullname
                 elif isinstance(key, mypy_nodes.NameExpr) and isinstance(key.node, mypy_nodes.Var):
                     fullname = key.node.fullname
-                else:  # pragma: no cover
-                    raise TypeError("Received unexpected type while searching for aliases.")
+                else:
+                    # e.g. a function of the package referenced through its module ("pkg.module.function"): not a type
+                    continue
 
                 aliases[name].add(fullname)
 
